@@ -38,6 +38,9 @@ var (
 	vsChunkBad   [3]bool // per chunk: outputs invalid
 	vsChunkNoOut [3]bool // per chunk: _outs unreadable
 	vsChunkMetas []*Metadata
+	vsChunkOutsWritten []LazyArgumentMap
+	vsChunkOutsSeen    bool
+	vsJournalFiles     []string
 )
 
 // ---- stubs
@@ -63,7 +66,13 @@ func vsStat(name string) (os.FileInfo, error) { return nil, errors.New("no such 
 func vsReadlink(name string) (string, error) { return "", errors.New("not a link") }
 
 //verif:stub encoding/json.MarshalIndent
-func vsMarshalIndent(v any, prefix, indent string) ([]byte, error) { return []byte("{}"), nil }
+func vsMarshalIndent(v any, prefix, indent string) ([]byte, error) {
+	if co, ok := v.([]LazyArgumentMap); ok {
+		vsChunkOutsWritten = co
+		vsChunkOutsSeen = true
+	}
+	return []byte("{}"), nil
+}
 
 //verif:stub encoding/json.Marshal
 func vsMarshal(v any) ([]byte, error) { return []byte("{}"), nil }
@@ -99,7 +108,7 @@ func vsRead(self *Metadata, name MetadataFileName, limit int64) (LazyArgumentMap
 			if vsChunkNoOut[i] {
 				return nil, errors.New("chunk outs unreadable")
 			}
-			return LazyArgumentMap{}, nil
+			return LazyArgumentMap{"chunk": []byte{'0' + byte(i)}}, nil
 		}
 	}
 	if vsReadErr {
@@ -260,7 +269,7 @@ func vsRemove(p string) error {
 }
 
 //verif:stub github.com/martian-lang/martian/martian/util.Readdirnames
-func vsReaddirnames(p string) ([]string, error) { return nil, nil }
+func vsReaddirnames(p string) ([]string, error) { return vsJournalFiles, nil }
 
 //verif:stub os.FindProcess
 func vsFindProcess(pid int) (*os.Process, error) { return &os.Process{}, nil }
@@ -274,7 +283,19 @@ func vsProcSignal(p *os.Process, sig os.Signal) error {
 }
 
 //verif:stub (*github.com/martian-lang/martian/martian/core.Metadata).glob
-func vsMetaGlob(self *Metadata) ([]string, error) { return vsGlob, nil }
+func vsMetaGlob(self *Metadata) ([]string, error) {
+	if vsGlobFromCache {
+		// the cache mirrors the directory in this harness
+		var paths []string
+		for name := range self.contents {
+			paths = append(paths, self.path+"/_"+string(name))
+		}
+		return paths, nil
+	}
+	return vsGlob, nil
+}
+
+var vsGlobFromCache bool
 
 //verif:stub github.com/martian-lang/martian/martian/util.RegisterSignalHandler
 func vsRegisterSignalHandler(h util.HandlerObject) { vsSigReg++ }
@@ -614,6 +635,16 @@ func H_SCHED_forkStep(splitI int, k int) {
 	if vsHas(M, CompleteFile) {
 		verifAssert(vsComplete(J), "C02: the fork completes only after its join")
 	}
+	// ---- C01: the join receives the chunk outputs complete and in chunk order
+	if vsExecCount(J) == 1 && kBefore > 0 {
+		verifCover("join received chunk outs")
+		verifAssert(vsChunkOutsSeen && len(vsChunkOutsWritten) == kBefore, "C01: the join receives one output record per chunk")
+		if len(vsChunkOutsWritten) == kBefore {
+			for i := 0; i < kBefore; i++ {
+				verifAssert(string(vsChunkOutsWritten[i]["chunk"]) == string([]byte{'0' + byte(i)}), "C01: the join receives the chunk outputs in chunk order")
+			}
+		}
+	}
 	// ---- C06: every chunk's outputs are checked before the join starts
 	if st0 == Complete.Prefixed(ChunksPrefix) && w.split && kBefore > 0 {
 		bad := false
@@ -634,11 +665,12 @@ func vsStartRegion(ctx context.Context, regionType string) *trace.Region { retur
 //verif:stub (*runtime/trace.Region).End
 func vsRegionEnd(r *trace.Region) {}
 
-// ---- node level (G4): pipeline P { preflight PRE; stage A; pipeline Q { stage B(A.o) }; stage C }
+// ---- node level (G4): pipeline P { preflight PRE; stage A; pipeline Q { pipeline R { stage B(A.o) } }; stage C }
+// (B sits two pipeline levels below the preflight: "any enclosing pipeline")
 
 type vsGraph struct {
 	top          *TopNode
-	p, q         *Node
+	p, q, r      *Node
 	pre, a, b, c *Node
 	ps           *Pipestance
 }
@@ -681,11 +713,14 @@ func vsMakeGraph() *vsGraph {
 	g.q = vsPipelineNode(top, g.p, "ID.ps.P.Q", "Q")
 	g.b, _ = vsStageNode(top, "B", true)
 	g.p.subnodes["PRE"], g.p.subnodes["A"], g.p.subnodes["C"], g.p.subnodes["Q"] = g.pre, g.a, g.c, g.q
-	g.q.subnodes["B"] = g.b
+	g.r = vsPipelineNode(top, g.q, "ID.ps.P.Q.R", "R")
+	g.q.subnodes["R"] = g.r
+	g.r.subnodes["B"] = g.b
+	g.r.parent = g.q
 	for _, n := range []*Node{g.pre, g.a, g.c, g.q} {
 		n.parent = g.p
 	}
-	g.b.parent = g.q
+	g.b.parent = g.r
 	// data dependency B <- A (what makePrenodes derives from the binding B(x = A.o))
 	g.b.setPrenode(g.a)
 	// the preflight wiring loop of NewPipestance, on the hand-built sub-node map
@@ -1085,5 +1120,154 @@ func H_C05_lock() {
 			}
 		}
 		verifAssert(removed && !ps.metadata.exists(Lock), "C05: a handled termination signal leaves the pipestance unlocked")
+	}
+}
+
+// H_C11_refreshState: the whole journal scan.  One notification file, written
+// by the split job, the join job, chunk 0 or chunk 1 of fork "fork_<k>" of stage
+// S (k one arbitrary byte) or by the look-alike fork "fork_<other>", for an
+// arbitrary state-bearing file: after Node.refreshState exactly the metadata
+// object of the writer has that file cached, and nothing else changed.
+func H_C11_refreshState(writerKind int, lookalike int) {
+	disableUniquification = false
+	top := vsTop()
+	top.rt.Config.VdrMode = VdrDisable
+	root := vsPipelineNode(top, nil, "ID.ps.P", "P")
+	node, f0 := vsStageNode(top, "S", true)
+	root.subnodes["S"] = node
+	k := verifString("k", 1)
+	k2 := verifString("other", 1)
+	verifAssume(k != k2)
+	mkFork := func(key string, index int) *Fork {
+		f := f0
+		if index > 0 {
+			c := *f0
+			f = &c
+		}
+		f.index = index
+		f.id = mapKeyFork(key).forkString()
+		f.fqname = node.call.GetFqid() + "." + encodeJournalName.Replace(f.id)
+		f.metadata = NewMetadata(f.fqname, f.path)
+		f.split_metadata = NewMetadata(f.fqname+".split", f.path+"/split")
+		f.join_metadata = NewMetadata(f.fqname+".join", f.path+"/join")
+		f.chunks = nil
+		for i := 0; i < 2; i++ {
+			c := &Chunk{fork: f, index: i, chunkDef: &ChunkDef{}}
+			c.fqname = f.fqname + ".chnk" + string(rune('0'+i))
+			c.metadata = NewMetadata(c.fqname, f.path+"/chnk"+string(rune('0'+i)))
+			f.chunks = append(f.chunks, c)
+		}
+		return f
+	}
+	fa, fb := mkFork(k, 0), mkFork(k2, 1)
+	node.forks = []*Fork{fa, fb}
+	writer := fa
+	if lookalike != 0 {
+		writer = fb
+	}
+	files := []MetadataFileName{CompleteFile, Errors, LogFile, Assert}
+	fi := verifInt("file")
+	verifAssume(verifAll(fi >= 0, fi < len(files)))
+	fi = verifConcretize(fi)
+	name := writer.fqname[len(top.fqname)+1:]
+	var target *Metadata
+	switch writerKind {
+	case 0:
+		name += ".split_" + string(files[fi])
+		target = writer.split_metadata
+	case 1:
+		name += ".join_" + string(files[fi])
+		target = writer.join_metadata
+	case 2:
+		name += ".chnk0." + string(files[fi])
+		target = writer.chunks[0].metadata
+	default:
+		name += ".chnk1." + string(files[fi])
+		target = writer.chunks[1].metadata
+	}
+	vsJournalFiles = []string{name}
+	root.refreshState(true)
+	verifCover("journal scanned")
+	var all []*Metadata
+	for _, f := range node.forks {
+		all = append(all, f.collectMetadatas()...)
+	}
+	for _, m := range all {
+		if m == target {
+			verifAssert(m.exists(files[fi]) && len(m.contents) == 1, "C11: the notification reaches the metadata object of the job that wrote it")
+		} else {
+			verifAssert(len(m.contents) == 0, "C11: a notification changes no other job's state")
+		}
+	}
+}
+
+// H_C05_resetRestart: what cmd/mrp does when it re-attaches to a pipestance
+// that was killed: Pipestance.Reset() then Pipestance.RestartLocalJobs(local).
+// The stage has a completed split and two chunks with arbitrary
+// crash-consistent sentinel files; the cached node states are those the dead
+// mrp had computed.
+//
+//	C05: afterwards no chunk is left queued, or running under a process that no
+//	longer exists (it would never be executed); completed chunks are untouched;
+//	failed chunks are cleared for re-execution.
+func H_C05_resetRestart() {
+	disableUniquification = false
+	vsGlobFromCache = true
+	top := vsTop()
+	top.rt.Config.JobMode = localMode
+	top.rt.Config.FullStageReset = false
+	p := vsPipelineNode(top, nil, "ID.ps.P", "P")
+	p.parent = top
+	node, f := vsStageNode(top, "S", true)
+	node.parent = p
+	p.subnodes["S"] = node
+	f.split_metadata.contents[CompleteFile] = struct{}{}
+	f.split_metadata.contents[JobInfoFile] = struct{}{}
+	f.split_metadata.contents[StageDefsFile] = struct{}{}
+	for i := 0; i < 2; i++ {
+		c := &Chunk{fork: f, index: i, chunkDef: &ChunkDef{}}
+		c.fqname = f.fqname + ".chnk" + string(rune('0'+i))
+		c.metadata = newMetadataWithJournalPath(c.fqname, "P.S.fork0.chnk"+string(rune('0'+i)), f.path+"/chnk"+string(rune('0'+i)), top.journalPath)
+		vsSymbolicContents(c.metadata, "C"+string(rune('0'+i)), QueuedLocally)
+		m := c.metadata
+		verifAssume(verifImplies(vsHas(m, LogFile), vsHas(m, JobInfoFile)))
+		verifAssume(verifImplies(vsHas(m, QueuedLocally), verifAll(!vsHas(m, LogFile), !vsHas(m, CompleteFile))))
+		verifAssume(!vsHas(m, DisabledFile))
+		f.chunks = append(f.chunks, c)
+	}
+	vsPidZero, vsPidDead, vsJobInfoErr = false, verifBool("pid.dead"), false
+	ps := &Pipestance{node: p, metadata: NewMetadata("ID.ps", "/ps")}
+	ps.metadata.contents[Lock] = struct{}{}
+	// the states the dead mrp had cached (LoadMetadata on re-attach)
+	node.state = node.getState()
+	p.state = Running
+	top.node.frontierNodes.nodes[node.GetFQName()] = node
+	var before [2]MetadataState
+	for i, c := range f.chunks {
+		before[i] = c.getState()
+	}
+	err1 := ps.Reset()
+	err2 := ps.RestartLocalJobs(localMode)
+	verifCover("reset and restart ran")
+	verifAssert(err1 == nil && err2 == nil, "reset and restart succeed when the file system does")
+	for i, c := range f.chunks {
+		after := c.getState()
+		switch before[i] {
+		case Complete:
+			verifAssert(after == Complete, "C05: a chunk whose completion was recorded is not touched by a restart")
+		case Failed:
+			verifCover("a failed chunk was reset")
+			verifAssert(after == Ready, "C05: a failed chunk is cleared for re-execution")
+		case Queued:
+			verifCover("an orphaned queued chunk")
+			verifAssert(after == Ready, "C05: a chunk that was queued when mrp died is re-queued, not waited for")
+		case Running:
+			if vsPidDead {
+				verifCover("an orphaned running chunk")
+				verifAssert(after == Ready, "C05: a chunk whose process no longer exists is re-executed, not waited for")
+			} else {
+				verifAssert(after == Running, "C05: a chunk whose process is still alive is left running")
+			}
+		}
 	}
 }
